@@ -60,7 +60,7 @@ def run(chk):
                 "query point; 2-D queries along the moved cross section. Spherical: a common longitude offset (incl. offsets "
                 "that move features across the +-180 meridian, longitudes kept within [-360,360]) and the query point rotated "
                 "about the polar axis. Answers (temperature, 4 compositions, grains, tag) must agree: tag exactly, values "
-                "within 1e-6 relative + 1e-6 absolute. A disagreement at a point where the unmoved world's own answer changes "
+                "within 1e-6 relative + 1e-6 absolute (temperature: + 1e-6 * 2500 K, the size of the operands of a subtraction). A disagreement at a point where the unmoved world's own answer changes "
                 "under a 1 cm perturbation of the point is counted as boundary-ambiguous. non-trivial = tag >= 0")
     chk.assumptions = ["moved coordinates are written with 12 significant digits (the JSON reader's exact fast path), i.e. the moved "
                        "world differs from the exact motion by up to 1e-5 m",
@@ -98,6 +98,14 @@ def run(chk):
             aim_plume = Gen(rng).plume("aimpl%d" % wi, True)
             aim_plume["min depth"] = 0.0
             wj["features"].append(aim_plume)
+        for f in wj["features"]:
+            # neighbouring plume cross sections whose azimuths differ by exactly half a turn have no defined direction of
+            # interpolation (either way round is as short): after turning the world the tie is broken by rounding
+            ra = f.get("rotation angles")
+            if f["model"] == "plume" and ra:
+                for k in range(1, len(ra)):
+                    if abs(((ra[k] - ra[k - 1]) % 360.0) - 180.0) < 1e-6:
+                        ra[k] = ra[k] + 7.0
         if sph:
             lons = []
 
@@ -199,7 +207,10 @@ def run(chk):
             return x is None and y is None
         if x[TAGPOS] != y[TAGPOS]:
             return False
-        return all((math.isnan(p) and math.isnan(q)) or abs(p - q) <= ab + rel * max(abs(p), abs(q)) for p, q in zip(x, y))
+        # the temperature (first entry) may be a small difference of painted values of the order of the mantle temperature
+        # ("subtract" operations): its absolute tolerance is rel * 2500 K, the size of the operands
+        return all((math.isnan(p) and math.isnan(q)) or abs(p - q) <= (ab if j else max(ab, rel * 2500.0)) + rel * max(abs(p), abs(q))
+                   for j, (p, q) in enumerate(zip(x, y)))
     viol = []
     worst = 0.0
     for (i1, i2, pert, motion, dim) in plan:
